@@ -130,7 +130,8 @@ def setup():
     h.db.generate_mapping(check_tables=False)
     O2O['inh'] = h
     for via in range(4):                      # warm the translator / SQL caches outside the tracer
-        assert _sub(via, False, (30, 5, 1), 1, 6), (via, LAST)
+        _sub(via, False, (30, 5, 1), 1, 6)
+        assert LAST['before'] is not None and LAST['after'] is not None, (via, LAST)
 
 
 def _reset_o2o(e):
